@@ -1495,6 +1495,55 @@ fn ctx_case(r: &mut Rng, state: &str, w: &[WU]) -> String {
 
 const LOCAL_STATES: [&str; 8] = ["", "", "@x=U", "@u=U", "@e=s-", "@x=s61 @u=U", "@y=s612062", "@r=U @e=U"];
 
+/// one word that assigns IFS (`${IFS=w}` / `${IFS:=w}`, separators as the word) and also contains other
+/// unquoted expansions — before, after and nested — whose values hold old and new separators:
+/// splitting must use the IFS in force AFTER the whole initial expansion
+fn ifs_assign_family() -> Vec<Vec<WU>> {
+    let seps: Vec<Vec<WU>> = vec![
+        vec![lit(':')],
+        vec![lit(' '), lit(':')],
+        vec![lit('a')],
+        vec![],
+        vec![WU::Sq(": ".into())],
+        vec![WU::Unq(raw("y"))],
+        vec![lit('b'), lit(':')],
+    ];
+    let others: Vec<WU> = vec![
+        WU::Unq(raw("x")),
+        WU::Unq(raw("y")),
+        WU::Unq(raw("@")),
+        WU::Unq(raw("*")),
+        WU::Unq(braced("x", Mo::None)),
+        WU::Unq(braced("u", Mo::Sw { colon: false, act: '-', w: vec![lit('a'), lit(':'), lit('b'), lit(' '), lit('c')] })),
+        WU::Dq(vec![raw("x")]),
+        lit(':'),
+    ];
+    let mut out = vec![];
+    for colon in [false, true] {
+        for sep in &seps {
+            let asg = WU::Unq(braced("IFS", Mo::Sw { colon, act: '=', w: sep.clone() }));
+            for o in &others {
+                out.push(vec![asg.clone(), o.clone()]);
+                out.push(vec![o.clone(), asg.clone()]);
+                out.push(vec![o.clone(), asg.clone(), o.clone()]);
+                for p in &others {
+                    out.push(vec![o.clone(), asg.clone(), p.clone()]);
+                }
+                // nested in another switch word
+                out.push(vec![WU::Unq(braced("u", Mo::Sw { colon: false, act: '-', w: vec![asg.clone(), o.clone()] }))]);
+                out.push(vec![
+                    WU::Unq(braced("u", Mo::Sw { colon: false, act: '-', w: vec![asg.clone()] })),
+                    o.clone(),
+                ]);
+                out.push(vec![WU::Dq(vec![braced("IFS", Mo::Sw { colon, act: '=', w: sep.clone() })]), o.clone()]);
+            }
+        }
+    }
+    out
+}
+
+const IFS_ASSIGN_STATES: [&str; 6] = ["IFS=U", "IFS=U", "IFS=s-", "IFS=s3a", "", "IFS=s20"];
+
 /// histories around the assigning switches: `${p=w}` / `${p:=w}` inside a function call, then later
 /// expansions of the same parameter after the return, in a second call, and at top level again
 fn assign_history_family() -> Vec<Vec<Vec<WU>>> {
@@ -1599,7 +1648,7 @@ fn random_tu(r: &mut Rng, ctx: Ctx, depth: usize) -> TU {
             3 => TU::Bs(*r.pick(&['a', ' ', ':', '*', '\\', '\'', '"', '$', '}'])),
             4 | 5 => raw(r.pick(&["x", "y", "e", "u", "@", "*", "#", "1", "2", "?", "0", "r", "-", "$", "!"])),
             _ => {
-                let p = *r.pick(&ALL_PARAMS);
+                let p = if r.chance(1, 12) { "IFS" } else { *r.pick(&ALL_PARAMS) };
                 let m = match r.below(8) {
                     0 => Mo::None,
                     1 => Mo::Len,
@@ -1701,6 +1750,26 @@ fn main() {
         for _ in 0..kf {
             let st = state_text(&mut rng);
             out(ctx_case(&mut rng, &st, &w));
+        }
+    }
+    // 1d. IFS assigned inside the word that is being split
+    let ki = if thorough { 4 } else { 1 };
+    for w in ifs_assign_family() {
+        if !renderable(&w) {
+            continue;
+        }
+        for ifs in IFS_ASSIGN_STATES {
+            for _ in 0..ki {
+                let st = state_text(&mut rng);
+                // replace the sampled IFS state by the one of this profile
+                let st: Vec<&str> = st.split(' ').filter(|t| !t.starts_with("IFS=")).collect();
+                let st = format!("{} {}", st.join(" "), ifs);
+                if rng.chance(1, 3) {
+                    out(ctx_case(&mut rng, st.trim(), &w));
+                } else {
+                    out(w_case(st.trim(), &w));
+                }
+            }
         }
     }
     // 1c. assign-default histories across function calls, with every local-declaration profile
